@@ -311,6 +311,8 @@ def describe(r, vec):
     s = "%s %s.%s on case %s" % (r.get("what"), r.get("view", ""), r.get("g", ""), short(vec))
     if r.get("what") == "cap":
         s += ": result depends on spare capacity: %s / %s" % (r.get("exp"), r.get("got"))
+    elif r.get("what") == "state":
+        s += ": result depends on hidden state, not only on the bytes: %s / %s" % (r.get("exp"), r.get("got"))
     elif r.get("exp"):
         s += ": specification %s, real code %s" % (r.get("exp"), r.get("got"))
     elif r.get("got"):
